@@ -137,6 +137,9 @@ func cmdRun(args []string) int {
 	rep := s.Explore(driver.Case{Pkg: *pkg, Func: *fn, Params: ps, MaxPaths: *maxPaths, WitnessEvery: 50, MaxMapPerm: *mapPerm, ByteEnum: *byteEnum, OrderPolicies: *orderPol})
 	rep.Print(os.Stdout, *show)
 	fmt.Printf("  solver: %+v\n", s.SolverTotals())
+	for k, v := range s.ForkSites() {
+		fmt.Printf("  forks %6d at %s\n", v, k)
+	}
 	if !*noReplay {
 		rr := s.Replay([]*driver.CaseReport{rep})
 		b, _ := json.MarshalIndent(rr.Summary(), "", " ")
